@@ -170,8 +170,21 @@ def build_circuit(cirq, mods, case):
         c.append(cirq_gate(cirq, mods, o).on(*[q(w) for w in o['w']]),
                  strategy=cirq.InsertStrategy.NEW if s == 'N' else cirq.InsertStrategy.EARLIEST)
     for m in case['meas']:
-        c.append(cirq.measure(*[q(w) for w in m['w']], key=m['key']))
+        kw = {}
+        if m.get('invert'):
+            kw['invert_mask'] = tuple(bool(b) for b in m['invert'])
+        if m.get('flip_confusion'):
+            kw['confusion_map'] = {(i,): np.array([[0.0, 1.0], [1.0, 0.0]]) for i in m['flip_confusion']}
+        c.append(cirq.measure(*[q(w) for w in m['w']], key=m['key'], **kw))
     return c
+
+
+def circuit_recs(cirq, mods, case):
+    """(key, targets) of the circuit's measurements in the order the circuit lists them (moment by moment)."""
+    out = [(cirq.measurement_key_name(op), [q.x for q in op.qubits]) for op in build_circuit(cirq, mods, case).all_operations()
+           if cirq.is_measurement(op)]
+    assert sorted(out) == sorted((m['key'], m['w']) for m in case['meas'])
+    return out
 
 
 def num_qubits(case):
@@ -368,6 +381,8 @@ def np_phase_dist(a, b):
 
 def np_ref_gate(cirq, mods, o):
     """The documented matrix of one generated operation, independent of cirq.unitary where a closed form is at hand."""
+    if o['k'] == 'pad':
+        return np.eye(2)
     if o['k'] == 'psp':
         P = np.eye(1)
         for cde in o['codes']:
@@ -397,9 +412,21 @@ def op_signature(o):
     return o.get('fam', o['k'])
 
 
-def serialize_case(cirq, mods, case, many=False):
+def serialize_case(cirq, mods, case):
     ser = mods['cirq_ionq'].Serializer()
     return ser.serialize_single_circuit(build_circuit(cirq, mods, case))
+
+
+def gen_native_case(rng, max_q=4, max_ops=8):
+    top = rng.randint(1, max_q)
+    wires = sorted(set([top - 1] + [w for w in range(top - 1) if rng.random() < 0.7]))
+    ops = []
+    for _ in range(rng.randint(1, max_ops)):
+        fam = rng.choice(['GPI', 'GPI2', 'IonqMS', 'IonqZZ'] if len(wires) >= 2 else ['GPI', 'GPI2'])
+        g = gates.draw(rng, fam)
+        ops.append(dict(k='native', fam=fam, p=g.p, w=rng.sample(wires, len(g.shape))))
+    strat = ['N' if rng.random() < 0.2 else 'E' for _ in ops]
+    return dict(vendor='ionq', gateset='native', ops=ops, strat=strat, meas=draw_meas(rng, wires), window=False)
 
 
 def shrink_ionq(cirq, mods, case, native, tol):
@@ -415,39 +442,72 @@ def shrink_ionq(cirq, mods, case, native, tol):
     return case
 
 
-def ionq_payload_stream(ctx, cirq, mods, checks, n, native=False, long=False):
+def ionq_payload_stream(ctx, cirq, mods, checks, dchecks, n, native=False, long=False):
     rng = ctx.rng
     stream = 'ionq_native' if native else 'ionq_qis'
     for _ in range(n):
         case = gen_native_case(rng) if native else gen_qis_case(rng, max_q=4 if ctx.tier == 'quick' else 5, long=long)
-        add_ionq_case(ctx, cirq, mods, checks, stream, case)
+        try:
+            prog = serialize_case(cirq, mods, case)
+        except Exception as e:
+            ctx.disagree(f'correspondence:{stream}', f'{type(e).__name__}: {e}', f'{stream}:raises:{type(e).__name__}',
+                         f'serializing a circuit over the accepted vocabulary raised {type(e).__name__}: {e}',
+                         dict(kind='ionq_payload', case=case))
+            continue
+        inp = prog.input
+        ctx.count(stream, case, nontrivial(case),
+                  sample=dict(ops=case['ops'][:4], meas=case['meas'], payload=dict(inp, circuit=inp['circuit'][:4]), metadata=prog.metadata))
+        head_ok = set(inp) == {'gateset', 'qubits', 'circuit'} and inp['gateset'] == case['gateset'] and inp['qubits'] == num_qubits(case)
+        add_prog_checks(ctx, mods, checks, dchecks, stream, case, inp.get('circuit'), num_qubits(case), head_ok, prog.metadata,
+                        dict(kind='ionq_payload', case=case), circuit_recs(cirq, mods, case))
 
 
-def add_ionq_case(ctx, cirq, mods, checks, stream, case):
+def add_prog_checks(ctx, mods, checks, dchecks, stream, case, circuit_ops, n, head_ok, metadata, rep, recs):
+    """One circuit of a payload: the op list against the reference unitary (float, up to phase), the metadata against the codec."""
     native = case['gateset'] == 'native'
-    try:
-        prog = serialize_case(cirq, mods, case)
-    except Exception as e:
-        ctx.disagree(f'correspondence:{stream}', f'{type(e).__name__}: {e}', f'{stream}:raises:{type(e).__name__}',
-                     f'serializing a circuit over the accepted vocabulary raised {type(e).__name__}: {e}',
-                     dict(kind='ionq_payload', case=case))
-        return
-    inp = prog.input
-    n = num_qubits(case)
     tol = TOLW if case.get('window') else TOL
-    ctx.count(stream, case, nontrivial(case),
-              sample=dict(ops=case['ops'][:4], meas=case['meas'], payload=dict(inp, circuit=inp['circuit'][:4]), metadata=prog.metadata))
-    head_ok = inp.get('gateset') == case['gateset'] and inp.get('qubits') == n and set(inp) == {'gateset', 'qubits', 'circuit'}
     try:
-        term = ionq_prog_term(inp['circuit'], native)
+        term = ionq_prog_term(circuit_ops, native)
     except Unrecognised as e:
         ctx.mark_broken(f'correspondence:{stream}', f'payload shape not covered by the model: {e}')
         return
     expr = (f'match ionq_unitary FOps {"true" if native else "false"} {n} {term} with\n'
             f'  | Some m => fcll_close_phase {tol} m (circ_unitary FOps (repeat 2%nat {n}) {ref_ops(case)})\n  | None => false end')
-    if not head_ok:
-        expr = 'false'
-    checks.append((stream, expr, case))
+    checks.append((stream, expr if head_ok else 'false', rep))
+    add_meta_checks(ctx, mods, dchecks, stream, recs, metadata, rep)
+
+
+def ionq_many_stream(ctx, cirq, mods, checks, dchecks, n):
+    """serialize_many_circuits: every circuit of the batch against its own reference; per-circuit metadata and qubit numbers."""
+    rng = ctx.rng
+    ser = mods['cirq_ionq'].Serializer()
+    for _ in range(n):
+        native = rng.random() < 0.25
+        cases = [gen_native_case(rng, max_ops=4) if native else gen_qis_case(rng, max_q=4, max_ops=5) for _ in range(rng.randint(1, 4))]
+        rep = dict(kind='ionq_many', cases=cases)
+        try:
+            prog = ser.serialize_many_circuits([build_circuit(cirq, mods, c) for c in cases])
+        except Exception as e:
+            ctx.disagree('correspondence:ionq_many', f'{type(e).__name__}: {e}', f'ionq_many:raises:{type(e).__name__}',
+                         f'serialize_many_circuits over the accepted vocabulary raised {type(e).__name__}: {e}', rep)
+            continue
+        inp, md = prog.input, prog.metadata
+        ctx.count('ionq_many', cases, len(cases) >= 2 and any(nontrivial(c) for c in cases),
+                  sample=dict(circuits=len(cases), qubits=inp.get('qubits'), metadata=md))
+        ok = (set(inp) == {'gateset', 'qubits', 'circuits'} and inp['gateset'] == cases[0]['gateset'] and len(inp['circuits']) == len(cases)
+              and inp['qubits'] == max(num_qubits(c) for c in cases) and all(set(c) == {'circuit'} for c in inp['circuits'])
+              and set(md) == {'measurements', 'qubit_numbers'})
+        if not ok:
+            checks.append(('ionq_many', 'false', rep))
+            continue
+        ms, qn = json.loads(md['measurements']), json.loads(md['qubit_numbers'])
+        for i, c in enumerate(cases):
+            sub = dict(rep, index=i)
+            job = fake_job(mods, md, nq=inp['qubits'])
+            good = len(ms) == len(cases) and qn == [num_qubits(x) for x in cases] and job.num_qubits(i) == num_qubits(c) \
+                and job.measurement_dict(circuit_index=i) == {m['key']: m['w'] for m in c['meas']}
+            add_prog_checks(ctx, mods, checks, dchecks, 'ionq_many', c, inp['circuits'][i]['circuit'], inp['qubits'], good,
+                            ms[i] if i < len(ms) else {}, sub, circuit_recs(cirq, mods, c))
 
 
 def evaluate(ctx, cirq, mods, checks, SH=40):
@@ -459,32 +519,54 @@ def evaluate(ctx, cirq, mods, checks, SH=40):
     outs = coq.coq_eval_many(shards, workers=12)
     for si, out in enumerate(outs):
         for idx in coq.parse_nat_list(coq.parse_evals(out)[0]):
-            stream, _, case = checks[si * SH + idx]
-            report(ctx, cirq, mods, stream, case)
+            stream, _, rep = checks[si * SH + idx]
+            report(ctx, cirq, mods, stream, rep)
 
 
-def report(ctx, cirq, mods, stream, case):
+def payload_oracle(cirq, mods, rep):
+    """Spec-level reading on the real code (numpy): (holds, smallest failing case or None)."""
+    if rep['kind'] == 'ionq_many':
+        cases = rep['cases']
+        prog = mods['cirq_ionq'].Serializer().serialize_many_circuits([build_circuit(cirq, mods, c) for c in cases])
+        idx = [rep['index']] if 'index' in rep else range(len(cases))
+        for i in idx:
+            c = cases[i]
+            tolf = 1e-6 if c.get('window') else 2e-9
+            if prog.input['qubits'] != max(num_qubits(x) for x in cases) or prog.input['gateset'] != c['gateset']:
+                return False, c
+            if np_ionq_disagrees(cirq, mods, dict(c, ops=c['ops'] + [dict(k='pad', w=[prog.input['qubits'] - 1])]),
+                                 prog.input['circuits'][i]['circuit'], c['gateset'] == 'native', tolf):
+                return False, c
+        return True, None
+    case = rep['case']
+    native = case['gateset'] == 'native'
+    tolf = 1e-6 if case.get('window') else 2e-9
+    prog = serialize_case(cirq, mods, case)
+    if prog.input.get('qubits') != num_qubits(case) or prog.input.get('gateset') != case['gateset']:
+        return False, case
+    if np_ionq_disagrees(cirq, mods, case, prog.input['circuit'], native, tolf):
+        return False, shrink_ionq(cirq, mods, case, native, tolf)
+    return True, None
+
+
+def report(ctx, cirq, mods, stream, rep):
     """A case on which the model evaluated inside Coq disagrees: decide on the real code whether the property fails."""
-    if stream in ('ionq_qis', 'ionq_native', 'ionq_many'):
-        native = case['gateset'] == 'native'
-        tolf = 1e-6 if case.get('window') else 2e-9
-        try:
-            prog = serialize_case(cirq, mods, case)
-            bad = np_ionq_disagrees(cirq, mods, case, prog.input['circuit'], native, tolf) or prog.input.get('qubits') != num_qubits(case)
-        except Exception as e:
-            ctx.mark_broken(f'correspondence:{stream}', f'oracle failed: {type(e).__name__}: {e}')
-            return
-        if not bad:
-            ctx.mark_broken(f'correspondence:{stream}', f'Coq model and numpy reading of the vendor semantics disagree on {case}')
-            return
-        small = shrink_ionq(cirq, mods, case, native, tolf)
-        sig = f'{stream}:' + '+'.join(op_signature(o) for o in small['ops'][:2])
-        sp = serialize_case(cirq, mods, small)
-        ctx.disagree(f'correspondence:{stream}', f'payload means another unitary: {small["ops"]}', sig,
-                     f'IonQ payload {json.dumps(sp.input["circuit"])[:300]} interpreted by the vendor gate definitions is not the unitary '
-                     f'(up to global phase) of the circuit {small["ops"]}', dict(kind='ionq_payload', case=small))
+    try:
+        holds, small = payload_oracle(cirq, mods, rep)
+    except Exception as e:
+        ctx.mark_broken(f'correspondence:{stream}', f'oracle failed: {type(e).__name__}: {e}')
         return
-    ctx.mark_broken(f'correspondence:{stream}', f'{case}')
+    if holds:
+        ctx.mark_broken(f'correspondence:{stream}', f'Coq model and numpy reading of the vendor semantics disagree on {json.dumps(rep)[:600]}')
+        return
+    sig = f'{stream}:' + '+'.join(op_signature(o) for o in small['ops'][:2])
+    try:
+        shown = json.dumps(serialize_case(cirq, mods, small).input)[:300]
+    except Exception as e:
+        shown = f'{type(e).__name__}'
+    ctx.disagree(f'correspondence:{stream}', f'payload means another unitary: {small["ops"]}', sig,
+                 f'IonQ payload {shown} interpreted by the vendor gate definitions is not the unitary (up to global phase) '
+                 f'of the circuit {small["ops"]}', dict(kind='ionq_payload', case=small))
 
 
 # ---------------------------------------------------------------------------------------------------
@@ -647,6 +729,8 @@ def replay_discrete(cirq, mods, rep):
         return impl_measurement_dict(mods, md) == recs
     if kind == 'ionq_results':
         return results_oracle(cirq, mods, rep)
+    if kind == 'ionq_e2e':
+        return e2e_oracle(cirq, mods, rep)
     raise KeyError(kind)
 
 
@@ -790,6 +874,135 @@ def results_stream(ctx, cirq, mods, dchecks, n):
                          f'assigned to the right keys/qubits: {rows}', rep)
 
 
+# ---------------------------------------------------------------------------------------------------
+# end to end through cirq_ionq.Service with the HTTP layer replaced by a vendor that follows the documented definitions
+# ---------------------------------------------------------------------------------------------------
+class _Resp:
+    ok, status_code, reason = True, 200, 'OK'
+
+    def __init__(self, data):
+        self._data = data
+
+    def json(self):
+        return self._data
+
+
+class FakeVendor:
+    """Answers cirq_ionq's HTTP requests: stores the posted job, interprets its program by the documented gate definitions
+    starting from |0...0>, and returns the outcome probabilities keyed by LITTLE-endian integers (qubit k = bit k)."""
+
+    def __init__(self):
+        self.body = None
+
+    def post(self, url, json=None, headers=None, **kw):
+        import json as J
+        self.body = J.loads(J.dumps(json))            # what goes over the wire must be JSON
+        return _Resp({'id': 'job-1', 'status': 'ready'})
+
+    def histogram(self, ops, n, native):
+        u = np_prog_unitary([np_ionq_gate(op, native) for op in ops], n)
+        psi = u[:, 0]
+        hist = {}
+        for j, a in enumerate(psi):
+            p = abs(a) ** 2
+            if p > 1e-12:
+                le = sum(((j >> (n - 1 - k)) & 1) << k for k in range(n))
+                hist[str(le)] = float(p)
+        return hist
+
+    def get(self, url, params=None, headers=None, **kw):
+        b = self.body
+        inp = b['input']
+        native = inp['gateset'] == 'native'
+        if url.endswith('/jobs/job-1'):
+            return _Resp({'id': 'job-1', 'status': 'completed', 'backend': b['backend'], 'metadata': b['metadata'],
+                          'stats': {'qubits': str(inp['qubits'])}})
+        if '/results/probabilities' in url:
+            if 'circuits' in inp:
+                return _Resp({f'c{i}': self.histogram(c['circuit'], inp['qubits'], native) for i, c in enumerate(inp['circuits'])})
+            return _Resp(self.histogram(inp['circuit'], inp['qubits'], native))
+        raise AssertionError(url)
+
+
+def classical_bits(case):
+    n = num_qubits(case)
+    bits = [0] * n
+    for o in case['ops']:
+        f, w = o['fam'], o['w']
+        if f == 'XPow':
+            bits[w[0]] ^= 1
+        elif f == 'CXPow':
+            bits[w[1]] ^= bits[w[0]]
+        elif f == 'SwapPow':
+            bits[w[0]], bits[w[1]] = bits[w[1]], bits[w[0]]
+    return bits
+
+
+def gen_classical_case(rng, max_q=5):
+    top = rng.randint(1, max_q)
+    wires = sorted(set([top - 1] + [w for w in range(top - 1) if rng.random() < 0.7]))
+    ops = []
+    for _ in range(rng.randint(1, 8)):
+        f = rng.choice(['XPow', 'XPow', 'CXPow', 'SwapPow', 'ZPow'] if len(wires) >= 2 else ['XPow', 'ZPow'])
+        e = rng.choice([1.0, 1.0, 3.0, -1.0])
+        ops.append(dict(k='eig', fam=f, e=e, s=0.0, w=rng.sample(wires, 2 if f in ('CXPow', 'SwapPow') else 1)))
+    meas = draw_meas(rng, wires)
+    if not meas:
+        meas = [dict(key='m', w=list(wires))]
+    return dict(vendor='ionq', gateset='qis', ops=ops, strat=['E'] * len(ops), meas=meas, window=False)
+
+
+def run_service(cirq, mods, circuits, target, reps, batch=False, via_sampler=False):
+    """Service.run / run_batch / Sampler over the fake vendor. Returns list of {key: rows}."""
+    from unittest import mock
+    ci = mods['cirq_ionq']
+    import cirq_ionq.ionq_client as ic
+    srv = FakeVendor()
+    svc = ci.Service(remote_host='http://example.invalid', api_key='k', default_target=target)
+    with mock.patch.object(ic.requests, 'post', srv.post), mock.patch.object(ic.requests, 'get', srv.get):
+        if batch:
+            res = svc.run_batch(circuits, repetitions=reps, target=target, seed=Picks([0]))
+        elif via_sampler:
+            res = svc.sampler(target=target, seed=Picks([0])).run_sweep(circuits[0], params=None, repetitions=reps)
+        else:
+            res = [svc.run(circuits[0], repetitions=reps, target=target, seed=Picks([0]))]
+    return [{k: [[int(b) for b in row] for row in np.asarray(v)] for k, v in r.measurements.items()} for r in res], srv
+
+
+def e2e_oracle(cirq, mods, rep):
+    cases = rep['cases']
+    circuits = [build_circuit(cirq, mods, c) for c in cases]
+    got, _ = run_service(cirq, mods, circuits, rep['target'], rep['reps'], batch=rep['mode'] == 'batch', via_sampler=rep['mode'] == 'sampler')
+    if len(got) != len(cases):
+        return False
+    for c, g in zip(cases, got):
+        bits = classical_bits(c)
+        want = {m['key']: [[bits[w] ^ int(bool(m.get('invert', [0] * len(m['w']))[i])) for i, w in enumerate(m['w'])]] * rep['reps']
+                for m in c['meas']}
+        if g != want:
+            return False
+    return True
+
+
+def e2e_stream(ctx, cirq, mods, n):
+    rng = ctx.rng
+    for _ in range(n):
+        mode = rng.choice(['run', 'run', 'sampler', 'batch'])
+        cases = [gen_classical_case(rng) for _ in range(rng.randint(2, 3) if mode == 'batch' else 1)]
+        rep = dict(kind='ionq_e2e', cases=cases, target=rng.choice(['qpu', 'simulator']), reps=rng.randint(1, 3), mode=mode)
+        ctx.count('ionq_e2e', rep, any(len(c['ops']) >= 2 for c in cases), sample=rep)
+        try:
+            ok = e2e_oracle(cirq, mods, rep)
+        except Exception as e:
+            ctx.disagree('correspondence:ionq_e2e', f'{type(e).__name__}: {e}', f'ionq_e2e:raises:{type(e).__name__}',
+                         f'running a classical circuit through cirq_ionq.Service raised {type(e).__name__}: {e}', rep)
+            continue
+        if not ok:
+            ctx.disagree('correspondence:ionq_e2e', json.dumps(rep)[:300], 'ionq_e2e:bits',
+                         f'classical circuit {cases} run through Service.{mode} on a vendor following the documented definitions '
+                         f'returns bits that are not the circuit\'s', rep)
+
+
 def run(ctx):
     mods = env.import_cirq(('cirq_ionq', 'cirq_aqt', 'cirq_pasqal'))
     cirq = mods['cirq']
@@ -800,15 +1013,20 @@ def run(ctx):
     ctx.assumptions += ['vendor gate definitions transcribed in coq/Vendor/IonQ.v (trusted text)',
                         'adapters: JSON fields copied verbatim, angles turned into unit complex numbers by Python cos/sin',
                         'float instance tolerance 1e-9 (5e-7 when an exponent lies inside the serializer window)']
-    err = tables.regenerate(['EigenTables'])
-    if err['EigenTables']:
-        ctx.mark_broken('table:EigenTables', err['EigenTables'])
+    err = tables.regenerate(['EigenTables', 'IonqDispatch'])
+    for name, e in err.items():
+        if e:
+            ctx.mark_broken(f'table:{name}', e)
     ctx.set_obligations(coq.compile_props('C17'))
     q = ctx.tier == 'quick'
     checks, dchecks = [], []
-    ionq_payload_stream(ctx, cirq, mods, checks, 240 if q else 3000)
+    ionq_payload_stream(ctx, cirq, mods, checks, dchecks, 200 if q else 3000)
+    ionq_payload_stream(ctx, cirq, mods, checks, dchecks, 40 if q else 600, long=True)
+    ionq_payload_stream(ctx, cirq, mods, checks, dchecks, 80 if q else 1200, native=True)
+    ionq_many_stream(ctx, cirq, mods, checks, dchecks, 50 if q else 700)
     metadata_stream(ctx, cirq, mods, dchecks, 300 if q else 4000)
     results_stream(ctx, cirq, mods, dchecks, 200 if q else 3000)
+    e2e_stream(ctx, cirq, mods, 60 if q else 800)
     evaluate(ctx, cirq, mods, checks)
     evaluate_discrete(ctx, cirq, mods, dchecks)
 
@@ -819,15 +1037,28 @@ def replay(ctx, data):
     kind = data.get('kind')
     if kind == 'ionq_payload':
         case = data['case']
-        native = case['gateset'] == 'native'
-        prog = serialize_case(cirq, mods, case)
-        print('payload:', json.dumps(prog.input), prog.metadata)
-        checks = []
-        add_ionq_case(ctx, cirq, mods, checks, 'replay', case)
-        if not checks:
+        try:
+            prog = serialize_case(cirq, mods, case)
+        except Exception as e:
+            print('serializer raised', type(e).__name__, e)
             return False
-        text = PRE + f'Eval vm_compute in ({checks[0][1]}).\n'
-        out = coq.parse_evals(coq.coq_eval('c17_replay', text))
-        return out[0].strip() == 'true'
+        print('payload:', json.dumps(prog.input), prog.metadata)
+        holds, _ = payload_oracle(cirq, mods, data)
+        checks, dchecks = [], []
+        recs = circuit_recs(cirq, mods, case)
+        add_prog_checks(ctx, mods, checks, dchecks, 'replay', case, prog.input['circuit'], num_qubits(case), True, prog.metadata, data, recs)
+        out = coq.parse_evals(coq.coq_eval('c17_replay', PRE + f'Eval vm_compute in ({checks[0][1]}).\n'))
+        print('vendor semantics evaluated in Coq agree with the reference unitary:', out[0].strip())
+        dout = coq.parse_evals(coq.coq_eval('c17_replay_d', PRE_D + 'Eval vm_compute in [' + '; '.join(c[1] for c in dchecks) + '].\n')) if dchecks else ['[]']
+        print('metadata against the codec model:', dout[0])
+        meta_ok = 'false' not in dout[0] and (impl_measurement_dict(mods, prog.metadata) == recs or len({k for k, _ in recs}) != len(recs))
+        return holds and out[0].strip() == 'true' and meta_ok
+    if kind == 'ionq_many':
+        holds, small = payload_oracle(cirq, mods, data)
+        print('batch payload holds:', holds, '' if holds else small)
+        return holds
+    if kind in ('ionq_metadata', 'ionq_results', 'ionq_e2e', 'ionq_reject', 'aqt_payload', 'aqt_results', 'aqt_reject', 'pasqal'):
+        ok = replay_discrete(cirq, mods, data)
+        return bool(ok)
     print('nothing to replay for', kind)
     return False
